@@ -93,11 +93,20 @@ const RUNS: usize = 4;
 
 fn check(ctx: &Ctx, scratch: &Path, scn_json: &Value) -> Check {
     ctx.eval();
+    let (r, classes) = check_pure(scratch, scn_json);
+    for c in classes {
+        ctx.class(c);
+    }
+    r
+}
+
+fn check_pure(scratch: &Path, scn_json: &Value) -> (Check, Vec<&'static str>) {
+    let mut classes: Vec<&'static str> = vec![];
     let tags = ["a", "second-run-with-a-longer-name", "3", "run four"];
     let mut results: Vec<Vec<(i32, Snapshot)>> = vec![];
     let mut roots = vec![];
     for tag in tags.iter().take(RUNS) {
-        let root = scratch.join(format!("{tag}-{:08x}", hash_of(&scn_json.to_string()) as u32));
+        let root = scratch.join(format!("{tag}-{:08x}-{}", hash_of(&scn_json.to_string()) as u32, crate::core::uniq()));
         let _ = fsutil::force_remove(&root);
         let d = bprun::setup_dirs(&root);
         std::fs::write(d.buildpack.join("buildpack.toml"), VALID_BUILDPACK_TOML).unwrap();
@@ -138,17 +147,17 @@ fn check(ctx: &Ctx, scratch: &Path, scn_json: &Value) -> Check {
         }
         // guard against vacuity: successful builds must have produced something
         if results[0].iter().all(|(c, s)| *c == 0 && s.len() <= 1) && scn_json.get("detect").is_none() {
-            ctx.class("outputs-empty");
+            classes.push("outputs-empty");
         }
         if results[0].iter().any(|(c, _)| *c != 0) {
-            ctx.class("some-phase-exited-non-zero");
+            classes.push("some-phase-exited-non-zero");
         }
         Ok(())
     })();
     for root in roots {
         let _ = fsutil::force_remove(&root);
     }
-    r
+    (r, classes)
 }
 
 fn nontrivial(s: &Scenario) -> bool {
@@ -175,20 +184,33 @@ pub fn run(ctx: &Ctx) {
     for (_p, v) in ctx.regress_files() {
         ctx.check_case("regress", check(ctx, &scratch.path, &v["case"]), || v["case"].clone());
     }
-    ctx.run_prop("scenarios", scenario_strategy(), ctx.tier.pick(250, 8000), scenario_json, |s| {
-        if nontrivial(s) {
-            ctx.class("nontrivial");
-            ctx.nontrivial(hash_of(&scenario_json(s).to_string()));
-            if (ctx.samples_len() < 2 || hash_of(&scenario_json(s).to_string()) % 61 == 0) {
-                ctx.sample(3, || scenario_json(s));
+    ctx.run_prop_par(
+        "scenarios",
+        scenario_strategy(),
+        ctx.tier.pick(6000, 60_000),
+        scenario_json,
+        |s| {
+            let (r, classes) = check_pure(&scratch.path, &scenario_json(s));
+            (r, classes)
+        },
+        |s, classes| {
+            ctx.eval();
+            for c in classes {
+                ctx.class(c);
             }
-        }
-        ctx.class(match s {
-            Scenario::Detect(_) => "scenario:detect",
-            Scenario::Builds(_) => "scenario:builds",
-        });
-        check(ctx, &scratch.path, &scenario_json(s))
-    });
+            if nontrivial(s) {
+                ctx.class("nontrivial");
+                ctx.nontrivial(hash_of(&scenario_json(s).to_string()));
+                if (ctx.samples_len() < 2 || hash_of(&scenario_json(s).to_string()) % 61 == 0) {
+                    ctx.sample(3, || scenario_json(s));
+                }
+            }
+            ctx.class(match s {
+                Scenario::Detect(_) => "scenario:detect",
+                Scenario::Builds(_) => "scenario:builds",
+            });
+        },
+    );
     ctx.extra("processes_per_scenario", json!(RUNS));
 }
 
